@@ -219,7 +219,10 @@ def units(tier, seed=0):
     # a foreign instance with a DIFFERENT configuration constructed and stepped BEFORE this one is constructed: this
     # instance's configuration is the one loaded last (so the singleton of F015 is not in play) and its step must equal
     # its solo step; own configurations differ from the foreign one in arch version / security / memory architecture
-    pairs = [(dict(arch=7, vmsa=True), dict(arch=6)), (dict(arch=7), dict(arch=7, vmsa=True)),
+    # (own configurations are PMSA: the one-step oracle models the MPU-off / MPU-on memory system; on VMSA with the MMU
+    # off every data access is Strongly-ordered and an unaligned one faults, which the rows do not model -- a first
+    # version of these units with a VMSA own configuration raised exactly that false alarm and was corrected)
+    pairs = [(dict(arch=7), dict(arch=6, vmsa=True)), (dict(arch=7), dict(arch=7, vmsa=True)),
              (dict(arch=6), dict(arch=7, sec=False))]
     for i, (own, fc) in enumerate(pairs):
         rows_b = [r for r in ('LdrImmediateArmA1', 'StrRegisterT1', 'LdrexA1', 'MovRegisterArmA1', 'BxA1')
